@@ -197,6 +197,39 @@ Theorem C05_rep_concat_array_layout :
 Proof. exact rep_concat_array_layout. Qed.
 Print Assumptions C05_rep_concat_array_layout.
 
+(* the same for strings (items are characters, i.e. non-negative integers) and for byte arrays (whose indices
+   must also be contiguous: a gap becomes zero bytes, KF-C05-02) *)
+Theorem C05_rep_as_string_refines :
+  forall l, l <> [] -> (forall i x y, In (i, x) l -> In (i, y) l -> x = y) ->
+    (forall i x, In (i, x) l -> exists z, x = vint z /\ 0 <= z) ->
+    wf (as_string l) /\
+    forall m, In m (abs (as_string l)) <-> exists i x, In (i, x) l /\ m = vpair n_char (vint i) x.
+Proof. exact as_string_refines. Qed.
+Print Assumptions C05_rep_as_string_refines.
+
+Theorem C05_rep_concat_string_layout :
+  forall a b ms l,
+    rep_concat_added a b = Some ms -> ms <> [] -> items_of n_char ms = Some l ->
+    (forall i x y, In (i, x) l -> In (i, y) l -> x = y) ->
+    (forall i x, In (i, x) l -> exists z, x = vint z /\ 0 <= z) ->
+    rep_concat a b = Some (as_string l) /\ wf (as_string l) /\ forall m, In m (abs (as_string l)) <-> In m ms.
+Proof. exact rep_concat_string_layout. Qed.
+Print Assumptions C05_rep_concat_string_layout.
+
+Theorem C05_rep_as_bytes_refines :
+  forall l, l <> [] -> (forall i x y, In (i, x) l -> In (i, y) l -> x = y) ->
+    (forall i x, In (i, x) l -> exists z, x = vint z) ->
+    (forall lo hi, min_max l = Some (lo, hi) -> forall i, lo <= i <= hi -> exists x, In (i, x) l) ->
+    wf (as_bytes l) /\
+    forall m, In m (abs (as_bytes l)) <-> exists i x, In (i, x) l /\ m = vpair n_byte (vint i) x.
+Proof. exact as_bytes_refines. Qed.
+Print Assumptions C05_rep_as_bytes_refines.
+
+Example C05_rep_as_string_example :
+  as_string [(4, vint 101); (0, vint 97); (2, vint 120)] = RStr 0 [97; -1; 120; -1; 101] 2 /\
+  as_bytes [(3, vint 7); (5, vint 9)] = RBytes 3 [7; 0; 9].
+Proof. vm_compute. split; reflexivity. Qed.
+
 Example C05_rep_concat_array_example :
   let a := RArr 2 [Some (vint 1); None; Some (vint 3)] 2 in
   let b := RArr (-1) [Some (vint 7); Some (vint 8)] 2 in
